@@ -38,9 +38,39 @@ var verifDir = func() string {
 }()
 
 var (
-	buildDir = filepath.Join(verifDir, ".build")
-	harness  = filepath.Join(verifDir, "harness")
+	buildDir = func() string {
+		if d := os.Getenv("VERIF_BUILD"); d != "" {
+			return d
+		}
+		return filepath.Join(verifDir, ".build")
+	}()
+	harness = filepath.Join(verifDir, "harness")
+	// repoDir is the tree under test: /repo, unless VERIF_REPO names a scratch copy
+	// (used only by the harness's own sensitivity trials, never by a registered check).
+	repoDir = func() string {
+		if d := os.Getenv("VERIF_REPO"); d != "" {
+			return d
+		}
+		return "/repo"
+	}()
 )
+
+// modfileArgs points the build at repoDir when it is not /repo.
+func modfileArgs() []string {
+	if repoDir == "/repo" {
+		return nil
+	}
+	b, err := os.ReadFile(filepath.Join(harness, "go.mod"))
+	if err != nil {
+		fatal2("%v", err)
+	}
+	alt := filepath.Join(buildDir, "alt.mod")
+	os.WriteFile(alt, []byte(strings.Replace(string(b), "=> /repo", "=> "+repoDir, 1)), 0o644)
+	if sum, err := os.ReadFile(filepath.Join(repoDir, "go.sum")); err == nil {
+		os.WriteFile(filepath.Join(buildDir, "alt.sum"), sum, 0o644)
+	}
+	return []string{"-modfile=" + alt}
+}
 
 // propCfg sizes a check per tier.
 type propCfg struct {
@@ -106,7 +136,7 @@ func goTool() string {
 func build(race bool, withBcl bool) string {
 	os.MkdirAll(buildDir, 0o755)
 	// keep go.sum in step with /repo
-	if b, err := os.ReadFile("/repo/go.sum"); err == nil {
+	if b, err := os.ReadFile(filepath.Join(repoDir, "go.sum")); err == nil && repoDir == "/repo" {
 		os.WriteFile(filepath.Join(harness, "go.sum"), b, 0o644)
 	}
 	out := filepath.Join(buildDir, "sim.test")
@@ -115,6 +145,7 @@ func build(race bool, withBcl bool) string {
 		out = filepath.Join(buildDir, "sim.race.test")
 		args = []string{"test", "-c", "-race", "-o", out}
 	}
+	args = append(args, modfileArgs()...)
 	args = append(args, "./sim")
 	cmd := exec.Command(goTool(), args...)
 	cmd.Dir = harness
@@ -123,7 +154,8 @@ func build(race bool, withBcl bool) string {
 		fatal2("cannot build the worker against /repo (this is not a property violation):\n%s", b)
 	}
 	if withBcl {
-		cmd := exec.Command(goTool(), "build", "-o", filepath.Join(buildDir, "bcl"), "github.com/wkhere/bcl/cmd/bcl")
+		bargs := append([]string{"build", "-o", filepath.Join(buildDir, "bcl")}, modfileArgs()...)
+		cmd := exec.Command(goTool(), append(bargs, "github.com/wkhere/bcl/cmd/bcl")...)
 		cmd.Dir = harness
 		cmd.Env = goEnv()
 		if b, err := cmd.CombinedOutput(); err != nil {
